@@ -129,9 +129,7 @@ def setup_files(case, d):
         from pybtex.database import parse_string
         db = parse_string(text, 'bibtex')
         _write(os.path.join(d, 'refs.yaml'), db.to_string('yaml'))
-    aux = ['\\relax ']
-    for c in case['citations']:
-        aux.append('\\citation{%s}' % c)
+    aux = ['\\relax '] + _citation_lines(case)
     aux.append('\\bibstyle{%s}' % os.path.join(d, case['style']))
     aux.append('\\bibdata{%s}' % os.path.join(d, 'refs'))
     _write(os.path.join(d, 'doc.aux'), '\n'.join(aux) + '\n')
@@ -238,9 +236,7 @@ def to_request(case):
     texts = [[d + '/' + case['style'] + '.bst', style_text(case['style'])], [d + '/refs.bib', bib_text(case)]]
     if case.get('style_override'):
         texts.append([d + '/' + case['style_override'] + '.bst', style_text(case['style_override'])])
-    aux = ['\\relax ']
-    for c in case['citations']:
-        aux.append('\\citation{%s}' % c)
+    aux = ['\\relax '] + _citation_lines(case)
     aux.append('\\bibstyle{%s}' % (d + '/' + case['style']))
     aux.append('\\bibdata{%s}' % (d + '/refs'))
     req = {'op': 'makebib', 'mode': 'aux', 'aux_files': [[d + '/doc.aux', aux]], 'top': d + '/doc.aux', 'texts': texts,
@@ -354,6 +350,19 @@ def closure_ok(keys):
     return True
 
 
+def _citation_lines(case):
+    """the \\citation lines of the .aux file: one key per line, or grouped as case['aux_groups'] says (sizes summing to the number of citations)"""
+    cites = list(case['citations'])
+    groups = case.get('aux_groups')
+    if not groups or sum(groups) != len(cites) or any(g < 1 for g in groups):
+        return ['\\citation{%s}' % c for c in cites]
+    out, i = [], 0
+    for g in groups:
+        out.append('\\citation{%s}' % ','.join(cites[i:i + g]))
+        i += g
+    return out
+
+
 def gen_case(rng, styles):
     n = rng.randint(2, 8)
     keys = rng.sample(ORDER, n)
@@ -378,8 +387,20 @@ def gen_case(rng, styles):
     # a key cited twice in two spellings is an .aux error (C20): keep spellings consistent
     seen = {}
     cites = [seen.setdefault(c.lower(), c) for c in cites]
+    groups = None
+    if cites and rng.random() < 0.3:
+        # LaTeX writes one \citation line per \cite command: several keys on one line, keys cited again later (same spelling)
+        for _ in range(rng.randint(1, 3)):
+            cites.insert(rng.randint(1, len(cites)), rng.choice(cites))
+        groups, left = [], len(cites)
+        while left:
+            g = min(left, rng.randint(1, 3))
+            groups.append(g)
+            left -= g
     case = {'op': 'makebib', 'keys': keys, 'citations': cites, 'style': rng.choice(styles), 'min_crossrefs': rng.choice([1, 2, 2, 3]),
             'noise': [], 'style_override': None, 'yaml': False, 'cli': rng.random() < 0.4}
+    if groups:
+        case['aux_groups'] = groups
     r = rng.random()
     if r < 0.2:
         case['style_override'] = rng.choice([s for s in styles if s != case['style']])
